@@ -112,17 +112,23 @@ class Duration(timedelta):
         )
 
         # Intuitive normalization
-        total = self.total_seconds() - (years * 365 + months * 30) * SECONDS_PER_DAY
-        self._total = total
+        # (on the exact integer length: float seconds lose microseconds
+        # beyond 2**33 seconds)
+        total_us = (
+            _total_microseconds(self)
+            - (years * 365 + months * 30) * SECONDS_PER_DAY * US_PER_SECOND
+        )
+        self._total = total_us / US_PER_SECOND
 
         m = 1
-        if total < 0:
+        if total_us < 0:
             m = -1
 
-        self._microseconds = round(total % m * 1e6)
-        self._seconds = abs(int(total)) % SECONDS_PER_DAY * m
+        abs_seconds, abs_microseconds = divmod(abs(total_us), US_PER_SECOND)
+        self._microseconds = abs_microseconds * m
+        self._seconds = abs_seconds % SECONDS_PER_DAY * m
 
-        _days = abs(int(total)) // SECONDS_PER_DAY * m
+        _days = abs_seconds // SECONDS_PER_DAY * m
         self._days = _days
         self._remaining_days = abs(_days) % 7 * m
         self._weeks = abs(_days) // 7 * m
